@@ -83,6 +83,10 @@ type c01In struct {
 	GoType string `json:"gotype,omitempty"`
 	Seed   int64  `json:"seed,omitempty"`
 	Wrap   string `json:"wrap,omitempty"` // "", message, presence, iq
+	// outside the property's domain (not namespace-explicit, element-name fields that are
+	// not names, characters outside the XML range, an empty *Err): model and code are still
+	// compared, the round-trip oracle does not apply
+	OutOfDomain bool `json:"out_of_domain,omitempty"`
 }
 
 type c01 struct{}
@@ -107,7 +111,14 @@ var c01Names = []string{"a", "q", "x1", "item-not-found", "no_store", "a.b", "qu
 var c01Spaces = []string{"urn:x:1", "jabber:client", "http://a/b#c", "u:&<>\"'", "urn:ietf:params:xml:ns:xmpp-stanzas"}
 var c01Types = []string{"chat", "get", "set", "result", "error", "groupchat", "unavailable"}
 
-func c01Text(r *rand.Rand) string { return c01Texts[r.Intn(len(c01Texts))] }
+// the 2 kB text (last of the pool) is drawn less often than the others: it dominates
+// the size of the case files
+func c01Text(r *rand.Rand) string {
+	if r.Intn(60) == 0 {
+		return c01Texts[len(c01Texts)-1]
+	}
+	return c01Texts[r.Intn(len(c01Texts)-1)]
+}
 func c01OptText(r *rand.Rand) string {
 	if r.Intn(3) == 0 {
 		return ""
@@ -149,9 +160,13 @@ func c01Init() {
 			c01Registry = append(c01Registry, c01RegEntry{int(e.Kind), e.Space, e.Local, e.GoType, t})
 			c01TypeOf[e.GoType] = t
 		}
-		for _, v := range []interface{}{stanza.SASLAuth{}, stanza.SASLSuccess{}, stanza.SASLFailure{}, stanza.Handshake{},
+		// the non-stanza elements C01 names: stream management, SASL auth, component handshake.
+		// Receive-only stream elements (stream features, stream error, SASL failure) are not
+		// "built from the library's types and serialised" by anybody: outside C01 (their decoding
+		// is C02/C03's business), so they are not put through the marshal/unmarshal oracle.
+		for _, v := range []interface{}{stanza.SASLAuth{}, stanza.SASLSuccess{}, stanza.Handshake{},
 			stanza.SMEnable{}, stanza.SMEnabled{}, stanza.SMRequest{}, stanza.SMAnswer{}, stanza.SMResume{}, stanza.SMResumed{},
-			stanza.SMFailed{}, stanza.StreamFeatures{}, stanza.StreamError{}, stanza.TLSProceed{}, stanza.WebsocketOpen{}} {
+			stanza.SMFailed{}, stanza.TLSProceed{}, stanza.WebsocketOpen{}} {
 			t := reflect.TypeOf(v)
 			c01TypeOf[t.String()] = t
 			c01StreamEl = append(c01StreamEl, t.String())
@@ -1000,6 +1015,9 @@ func (c01) Oracle(inp interface{}, obs Sx) (string, string) {
 	if len(obs.L) == 3 {
 		return "Unmarshal(Marshal v) fails: " + string(bytesOf(obs.L[2])) + " on " + c01Short([]byte(c01RunesToString(b1))), "nonroundtrip:" + goName + ":unmarshal-error"
 	}
+	if in.OutOfDomain {
+		return "", ""
+	}
 	desc, b2 := obs.L[1].L[0], obs.L[1].L[1]
 	v, _ := c01Build(in)
 	want := c01Describe(v)
@@ -1261,6 +1279,24 @@ func (c01) Gen(r *rand.Rand, tier string) []interface{} {
 		add(c01In{Kind: "smenabled", SId: t, Location: t, SResume: t})
 		add(c01In{Kind: "smresume", PrevId: t})
 		add(c01In{Kind: "saslauth", Mechanism: t})
+	}
+	// domain edge: values outside the round-trip domain, where the model must still
+	// predict what the code does (the "malformed" stream of this property)
+	for _, in := range []c01In{
+		{Kind: "node", Any: &c01Node{Space: "urn:x:1", Local: "q", Nodes: []c01Node{{Local: "c", Content: "x"}}}},
+		{Kind: "iq", Any: &c01Node{Space: "urn:x:1", Local: "q", Nodes: []c01Node{{Local: "c", Nodes: []c01Node{{Space: "urn:x:2", Local: "d", Nodes: []c01Node{{Local: "e"}}}}}}}},
+		{Kind: "iq", Err: &c01Err{}},
+		{Kind: "iq", Id: "1", Any: &c01Node{Local: "error", Content: "not an error"}},
+		{Kind: "iq", Any: &c01Node{Space: "urn:x:1", Local: "error", Attrs: []c01KV{{"code", "7"}, {"type", "t"}}}},
+		{Kind: "message", Err: &c01Err{Code: 1, Reason: "text"}},
+		{Kind: "message", Err: &c01Err{Type: "cancel", Reason: "gone", Text: "t"}},
+		{Kind: "presence", Err: &c01Err{Reason: "gone"}},
+		{Kind: "message", Body: "nul\x00 fffe\uFFFE ffff\uFFFF ctl\x01\x1f", Id: "\x0b"},
+		{Kind: "iq", Any: &c01Node{Local: "q", Content: "\x00\uFFFE", Attrs: []c01KV{{"a", "\x0c"}}}},
+		{Kind: "saslauth", Mechanism: "\x00"},
+	} {
+		in.OutOfDomain = true
+		add(in)
 	}
 	n := 1200
 	nrefl := 3
